@@ -2,7 +2,7 @@
 Props/C08.lean — pkg_summary parsing accepts exactly complete well-formed entries,
 else says why.  Property theorems only; helper lemmas live in Lemmas/.
 -/
-import PkgsrcVerif.Lemmas.Summary
+import PkgsrcVerif.Lemmas.SummaryParse
 open M L
 
 /-- is_completed() is true exactly when the eleven required variables are set -/
@@ -105,6 +105,57 @@ theorem C08_bad_integer (s : Summary) (x : Var) (val : Bytes) (hk : x.kind = .in
     parseLine s (asciiBytes x.name ++ 61 :: val) = .error .parseInt := by
   have hne : (61 : UInt8) ∉ asciiBytes x.name := by cases x <;> decide
   simp only [parseLine, C08_value_after_first_eq _ val hne, ofName_name, hk, hv]
+
+/-- REFINEMENT TO THE SPECIFICATION, for every text: the code's line-by-line fold computes
+    exactly the classify-then-collect specification `S.parse` — it accepts the same texts, with
+    the same value for each of the 23 variables (value = everything after the first '=',
+    multi-line variables accumulate in input order, a repeated single-valued variable keeps its
+    last value), and it rejects the same texts with the same cause (first malformed line /
+    unknown variable / bad integer in line order, else the first missing required variable). -/
+theorem C08_model_is_spec (t : Bytes) :
+    (∀ e, Summary.parse t = .error e ↔ S.parse t = .error e) ∧
+    (∀ s, Summary.parse t = .ok s → ∃ s', S.parse t = .ok s' ∧ ∀ v, s v = s' v) ∧
+    (∀ s', S.parse t = .ok s' → ∃ s, Summary.parse t = .ok s ∧ ∀ v, s v = s' v) := by
+  -- both sides, in terms of the classified lines
+  have hm : Summary.parse t = (match S.firstFault ((S.textLines t).map fun l => (l, S.classify l)) with
+      | some e => .error e
+      | none =>
+        let s := (pairsOf ((S.textLines t).map fun l => (l, S.classify l))).foldl applyPair Summary.empty
+        match Var.required.find? (fun v => (s v).isNone) with
+        | some v => .error (.incomplete v)
+        | none => .ok s) := by
+    unfold Summary.parse
+    rw [parseLines_fold, lines_eq_textLines]
+    cases S.firstFault ((S.textLines t).map fun l => (l, S.classify l)) <;> rfl
+  have hs : S.parse t = (match S.firstFault ((S.textLines t).map fun l => (l, S.classify l)) with
+      | some e => .error e
+      | none =>
+        let s := S.valueOf (pairsOf ((S.textLines t).map fun l => (l, S.classify l)))
+        match S.required.find? (fun v => (s v).isNone) with
+        | some v => .error (.incomplete v)
+        | none => .ok s) := by
+    simp only [S.parse, pairsOf]
+    cases S.firstFault ((S.textLines t).map fun l => (l, S.classify l)) <;> rfl
+  have hv := fold_eq_valueOf _ (intsOk_pairsOf (S.textLines t))
+  have hreq : S.required = Var.required := rfl
+  have hfind : Var.required.find? (fun v => ((pairsOf ((S.textLines t).map fun l => (l, S.classify l))).foldl
+      applyPair Summary.empty v).isNone) =
+      S.required.find? (fun v => (S.valueOf (pairsOf ((S.textLines t).map fun l => (l, S.classify l))) v).isNone) := by
+    rw [hreq]; congr 1; funext v; rw [hv v]
+  rw [hm, hs]
+  cases hf : S.firstFault ((S.textLines t).map fun l => (l, S.classify l)) with
+  | some e =>
+    refine ⟨fun e' => Iff.rfl, ?_, ?_⟩ <;> (intro s h; cases h)
+  | none =>
+    simp only [hfind]
+    cases hr : S.required.find? (fun v => (S.valueOf (pairsOf ((S.textLines t).map fun l => (l, S.classify l))) v).isNone) with
+    | some v =>
+      refine ⟨fun e' => Iff.rfl, ?_, ?_⟩ <;> (intro s h; cases h)
+    | none =>
+      refine ⟨?_, ?_, ?_⟩
+      · intro e; constructor <;> (intro h; cases h)
+      · intro s h; injection h with h; subst h; exact ⟨_, rfl, hv⟩
+      · intro s' h; injection h with h; subst h; exact ⟨_, rfl, hv⟩
 
 /-- non-vacuity: exactly two variables are integer-valued and six are multi-line -/
 example : (Var.all.filter (·.kind == .int)).length = 2 ∧ (Var.all.filter (·.kind == .arr)).length = 6 := by
